@@ -288,6 +288,20 @@ func (c *tunnelChannel) NewStream(ctx context.Context, desc *grpc.StreamDesc, me
 }
 
 func (c *tunnelChannel) newStream(ctx context.Context, clientStreams, serverStreams bool, methodName string, opts ...grpc.CallOption) (*tunnelClientStream, error) {
+	// The settings (and the protocol revision negotiated from them) are written
+	// by the receive loop, which signals that it is done with them by closing
+	// awaitSettings. If the channel's context ended before that happened, the
+	// channel is unusable and we must not read them.
+	select {
+	case <-c.awaitSettings:
+	default:
+		select {
+		case <-c.awaitSettings:
+		case <-c.ctx.Done():
+			return nil, errors.New("channel is closed")
+		}
+	}
+
 	// this lock is only used here, and orders all calls to newStream sequentially
 	// to make sure streams are created (and NewStream message sent) with IDs in
 	// monotonic order.
